@@ -73,6 +73,11 @@ EXPLICIT = [
      "modify number of radical (c2, 0) increase bond order (c1,c2) }", True),
     ("rule SET3{ reactant r1{ C. labeled c1 C labeled c2 single bond to c1 H labeled h1 single bond to c2 } "
      "modify number of radical (c1, 0) form bond(c1,h1) break bond(c2,h1) modify number of radical (c2, 1) }", True),
+    # edits are applied in the order they are written
+    ("rule ORD1{ reactant r1{ C. labeled c1 } modify number of radical (c1, 0) increase number of radical (c1) }", True),
+    ("rule ORD2{ reactant r1{ C. labeled c1 } increase number of radical (c1) modify number of radical (c1, 1) }", False),
+    ("rule ORD3{ reactant r1{ C. labeled c1 C. labeled c2 single bond to c1 } increase bond order (c1,c2) "
+     "modify number of radical (c1, 0) decrease number of radical (c2) }", True),
     ("rule BAD1{ reactant r1{ C labeled c1 H labeled h1 single bond to c1 } break bond(c1,h1) }", False),
     ("rule BAD2{ reactant r1{ C labeled c1 H labeled h1 single bond to c1 } increase number of radical (c1) break bond(c1,h1) }", False),
     ("rule BAD3{ reactant r1{ C labeled c1 C labeled c2 double bond to c1 } decrease bond order (c1,c2) }", False),
